@@ -60,6 +60,14 @@ CHECKS = {
          "Stateful property test over one directory: generated histories of writes/flushes, holders of the first instance added and dropped in any order (Database clones, Readers, region.db() references, a sleeping run_bg task) and further opens (open / open_with_min_len below, at and above the current size) from another thread and from a re-exec'd child process. While any holder lives the attempt must return the lock error and leave both files byte-identical; once the last holder is gone the open must succeed and read back exactly the flushed model.",
          "flock semantics of tmpfs are assumed equal to the target filesystem's; an attempt that blocks instead of failing is decided by releasing the holders (success afterwards = violation), never by a timeout alone; the last holder always flushes before closing.",
          "stateful property testing with cross-thread and cross-process open attempts against a reference model (proptest)", "DESIGN.md §4 C18"),
+ "C05": ("E2-crash", "fault_enumeration",
+         "Fault enumeration over generated histories: every storage event (mmap write, length change, sync, hole punch) recorded by hook H1 during a generated region-operation history is a crash point; per point a systematic family of durable images (nothing written back / everything / every single dirty page flipped either way / seeded random per-page version choices) is materialised from page contents read back from the real file and opened with Database::open. Oracle: opens without panic; extents aligned, pairwise disjoint, inside the file; every region untouched since the last completed flush is exact; with no write-back every region not overwritten in place since the last metadata sync is exactly as it was then and no other region exists.",
+         "Crash model exactly as the property states it (atomic 4 KiB pages, ordered durable length changes, any subset of dirty pages); single-page flips are limited to 10 pages per crash point (all metadata pages first); single-threaded histories. Trusts hook H1 to report every write/sync site.",
+         "property-based fault injection: generated histories x enumerated crash points x enumerated page-subset families, recovery oracle from a reference model (proptest)", "DESIGN.md §4 C05, §3 E2"),
+ "C12": ("E2-crash", "fault_enumeration",
+         "Generated histories with frequent compact(): placement, lengths, byte contents (model) and both file lengths are compared across every compact(); every hole-punch event is checked against the in-memory metadata and against the durable regions-file image reconstructed by the crash simulator at that instant (disjoint from every referenced region's valid pages, inside a free extent or an unused reserve); every storage event from the first compact() on is a crash point under the C05 image families and recovery oracle.",
+         "Sequential histories only: interleavings of compact() with concurrent writers are NOT explored by this check (that part of the property is not claimed). Crash model as for C05.",
+         "property-based fault injection + invariant monitor over recorded storage events (proptest)", "DESIGN.md §4 C12, §3 E2"),
 }
 WIP = "not claimed: the generated-input check designed in DESIGN.md §4 was not built within the time available (the technique applies; nothing is asserted about this property)"
 
@@ -87,6 +95,7 @@ ENGINES = [
  {"name": "E3-vecmodel", "path": "harness/src/vecmodel", "serves_properties": ["C03", "C04", "C07", "C08", "C13", "C14", "C16", "C20"], "kind_free_text": "vector op language + Vec<Option<T>> reference model + snapshot tree for rollback, generic over the format x element-type matrix"},
  {"name": "E7-codec", "path": "harness/src/props/c17.rs", "serves_properties": ["C17"], "kind_free_text": "encoders/decoders driven directly (hook H9) and through Database::open; reference decoders, mutation operators, counting global allocator"},
  {"name": "E8-proc", "path": "harness/src/props/c18.rs", "serves_properties": ["C18"], "kind_free_text": "holder/open-attempt histories; second opens from threads and from re-exec'd child processes (vcheck --child-open)"},
+ {"name": "E2-crash", "path": "harness/src/crash", "serves_properties": ["C05", "C12"], "kind_free_text": "storage-event recorder (hook H1) + page-versioned durable-image simulator + crash-image enumeration and recovery oracle on top of E1"},
  {"name": "E1-rawmodel", "path": "harness/src/rawmodel", "serves_properties": ["C01", "C02", "C13", "C05", "C12", "C10"], "kind_free_text": "rawdb op language + byte-vector reference model + extent invariants, driven by proptest"},
 ]
 manifest = {
